@@ -504,7 +504,7 @@ Lemma get_setmap_perm events events' files files' :
 Proof.
   intros Pe Pf. unfold get_setmap.
   rewrite (flat_map_ext' (file_contribs events) (file_contribs events')).
-  - apply sm_build_perm, perm_flat_map, Pf.
+  - apply sm_build_perm, perm_flat_map, perm_filter, Pf.
   - intros f. apply file_contribs_ext. intros; now apply assoc_of_perm.
 Qed.
 
@@ -529,8 +529,8 @@ Lemma cov_record_ext events events' f :
   (forall g i, assoc_of events g i = assoc_of events' g i) -> cov_record events f = cov_record events' f.
 Proof.
   intros E. unfold cov_record.
-  assert (H : map (fun iv => (match assoc_of events (pf_path f) (fst iv) with [] => false | _ => true end, snd iv)) (number 0 (pf_nodes f)) =
-              map (fun iv => (match assoc_of events' (pf_path f) (fst iv) with [] => false | _ => true end, snd iv)) (number 0 (pf_nodes f))).
+  assert (H : map (fun iv => (match assoc_of events (pf_real f) (fst iv) with [] => false | _ => true end, snd iv)) (number 0 (pf_nodes f)) =
+              map (fun iv => (match assoc_of events' (pf_real f) (fst iv) with [] => false | _ => true end, snd iv)) (number 0 (pf_nodes f))).
   { apply map_ext. intros iv. now rewrite E. }
   now rewrite H.
 Qed.
